@@ -124,6 +124,12 @@ class Pack:
                 structural = False
                 if {'c03', 'c05'} & set(self.checks):
                     c.report('items-duplicated-or-invented', 'bins %s' % lists)
+                if 'c10' in self.checks:
+                    c.report('reports-more-than-opt', 'an item is used twice, so the reported number of bins is not a cover of the items: %s' % lists)
+                if 'c14' in self.checks:
+                    c.report('differs-from-definition', 'bins %s use an item twice or hold something that is not an input item' % lists)
+                if 'c09' in self.checks:
+                    c.report('any-fit-invariant', 'bins %s use an item twice or hold something that is not an input item' % lists)
         if not structural:
             return
         zl = [[term(it) for it in l] for l in lists]
